@@ -91,6 +91,13 @@ CHECKS = {
         "text": "Every singleton and pair filter over the 11 concrete classes and the two base classes (quick: all singletons, a seed-dependent quarter of the pairs) x recursive x normal/full runs a fixed history with boundary moves and late-arriving directories, random larger filters run generated single-op histories; per operation both logs are cut at the same logical sentinel event and the collapsed filtered stream must equal the collapsed isinstance-filtered unfiltered stream.",
         "note": "Assumes two inotify instances on one directory see identical native streams when operations are issued one at a time. A filtered watch that never reaches the cut event within 10 s although the unfiltered one has it is reported as a missing event. Trusted: vlib/fsops.py, sentinel sequence in props/c11.py.",
     },
+    "C17": {
+        "engine": "dsched",
+        "design_ref": "DESIGN.md §3.2, §4 C17",
+        "technique": "property-based testing over schedules: the real DelayedQueue on substitute threading/time under a deterministic scheduler; exhaustive DFS under a preemption bound on fixed programs + Hypothesis programs x random schedules; history oracle on a virtual clock",
+        "text": "Producer / consumer / remover / closer programs with virtual gaps around the delay (d/2, d-eps, d, d+eps) run the real DelayedQueue with a scheduling point at every source line of delayed_queue.py; every schedule with <= 1 (quick) / 2 (thorough) preemptions of 6 fixed programs is enumerated, random programs get random schedules; the recorded history must show put order, exactly-once hand-out by get xor remove, no delayed element before put time + d, nothing lost, the strict-clock lateness bound, and the end marker for blocked and later get() after close() (a deadlock state is the violation).",
+        "note": "Trusted: vlib/dsched (substitute primitives, differential-tested against the real ones in setup; strict virtual clock). Preemption granularity is a source line; atomicity of single bytecodes is assumed.",
+    },
 }
 
 ALL = [f"C{i:02d}" for i in range(1, 21)]
